@@ -212,11 +212,9 @@ theorem step_local3 {sh : Sh} {t : Tid} {pc : Pc} {op : Op} {sh' : Sh} {pc' : Pc
         (by intro u _; rfl) (fun r => Or.inl r) (by intro hne; simp at hne) (by intro u hu hm; simp [mem_rm, hm, hu])
     simp only [step, List.mem_append] at h
     rcases h with h | h
-    · split at h
-      · simp at h; obtain ⟨rfl, rfl⟩ := h
-        exact ⟨⟨fun g hg => by simp [waitG] at hg; subst hg; exact ⟨hle, hcur⟩, by simp [isSlp, mem_rm],
-          by intro g hs; simp [isSlp] at hs, by simp [isGood, lgl], by simp [isWW, lww], by intro g hg; simp [retG] at hg⟩, oth⟩
-      · simp at h
+    · simp at h; obtain ⟨rfl, rfl⟩ := h
+      exact ⟨⟨fun g hg => by simp [waitG] at hg; subst hg; exact ⟨hle, hcur⟩, by simp [isSlp, mem_rm],
+        by intro g hs; simp [isSlp] at hs, by simp [isGood, lgl], by simp [isWW, lww], by intro g hg; simp [retG] at hg⟩, oth⟩
     · simp at h; obtain ⟨rfl, rfl⟩ := h
       by_cases hne : sh.w.gen = gg
       · simp only [hne, ne_eq, not_true_eq_false, if_false]
